@@ -2,7 +2,7 @@
 # like confirm_seed.sh, but re-uses the author's own scratch worktree (already built with the change) for the suite and the demo:
 # usage: confirm_seed2.sh <ID> <slot>     (writes /tmp/seed_out/<ID>/confirm.log; the checks on /repo are run separately: confirm_seed2_checks.sh)
 id=$1; wt=/tmp/wt3_$2; out=/tmp/seed_out/$id; exec > $out/confirm.log 2>&1
-[ "$(git -C $wt rev-parse HEAD)" = "$(git -C /repo rev-parse HEAD)" ] || { echo "worktree not at /repo HEAD"; exit 1; }
+git -C /repo merge-base --is-ancestor $(git -C $wt rev-parse HEAD) HEAD || { echo "worktree is not at an ancestor of /repo HEAD"; exit 1; }
 git -C $wt diff > $out/wt.diff; cmp -s $out/wt.diff $out/patch.diff || { echo "worktree diff differs from patch.diff: re-applying"; git -C $wt checkout -q -- . ; git -C $wt apply $out/patch.diff || exit 1; }
 echo "== patch"; head -60 $out/patch.diff
 echo "== build + tests in the scratch worktree WITH the change"
